@@ -108,22 +108,35 @@ func c06StrLit(e ast.Expr) (string, bool) {
 	return "", false
 }
 
-// c06ExtractVocab reads pkg/document/document.go of the tree under test with go/parser and
-// collects, from every function whose name starts with "parse", the element names it switches
+// c06ExtractVocab reads every non-test file of pkg/document of the tree under test with go/parser and
+// collects, from every function, the element names it switches
 // on / compares with, the attribute names it reads, and per function the end-element name it
 // returns at (which identifies the element whose children it dispatches).
 func c06ExtractVocab(repo string) c06Vocab {
 	v := c06Vocab{Children: map[string][]string{}}
 	fset := token.NewFileSet()
-	f, err := parser.ParseFile(fset, filepath.Join(repo, "pkg/document/document.go"), nil, 0)
-	if err != nil {
-		v.Err = err.Error()
-		return v
+	// every non-test file of the package: the reader may be split over files, and a reader added for
+	// another part (styles, numbering, notes) contributes its vocabulary as well
+	files, _ := filepath.Glob(filepath.Join(repo, "pkg/document/*.go"))
+	var decls []ast.Decl
+	for _, fn := range files {
+		if strings.HasSuffix(fn, "_test.go") {
+			continue
+		}
+		f, err := parser.ParseFile(fset, fn, nil, 0)
+		if err != nil {
+			v.Err = err.Error()
+			continue
+		}
+		decls = append(decls, f.Decls...)
+	}
+	if len(decls) == 0 && v.Err == "" {
+		v.Err = "no source files under " + filepath.Join(repo, "pkg/document")
 	}
 	elems, attrs := map[string]bool{}, map[string]bool{}
-	for _, decl := range f.Decls {
+	for _, decl := range decls {
 		fd, ok := decl.(*ast.FuncDecl)
-		if !ok || fd.Body == nil || !strings.HasPrefix(fd.Name.Name, "parse") {
+		if !ok || fd.Body == nil {
 			continue
 		}
 		var fnElems, fnEnds []string
